@@ -160,8 +160,10 @@ def run(ctx):
     for _ in range(900 if quick else 20000):
         n = rng.randrange(4, 50)
         pts, fam = gen.dyadic_curve(rng, n, scale_exp=0)
-        nk = rng.randrange(1, max(2, n // 2))
+        nk = rng.randrange(1, max(2, n // 2)) if rng.random() < 0.85 else rng.randrange(max(1, n // 2), n)      # also MANY knees
         K = sorted(rng.sample(range(n), nk))
+        if rng.random() < 0.15:
+            rng.shuffle(K)                                    # knee indices in any order
         ne = rng.randrange(1, max(2, n - nk) if n - nk >= 1 else 2)
         ne = min(ne, n - nk) or 1
         mode = rng.choice(['subset', 'exactK', 'jitter', 'dup', 'mixed'])
@@ -193,7 +195,7 @@ def run(ctx):
             cand = [float(np.min(np.fabs(kx - px)) / dxx) for px, _ in E]
             t = rng.choice(cand)
         else:
-            t = rng.choice([0.0, 0.01, 0.05, 0.1, 0.25, 0.5])
+            t = rng.choice([0.0, 0.01, 0.05, 0.1, 0.25, 0.5, 1.0, 2.0])
         one(ctx, pts, K, E, t, fam + ':' + mode)
 
 
